@@ -59,7 +59,8 @@ claim(
     "Decides clauses a-h of DESIGN.md 4/C06: every operation class and enum member has the right encoding; precision / broadcast / activation / "
     "kernel-stride parameters are packed at the spec's bit positions for every enum combination; each register gets the operand/axis/side/tile its name "
     "says and every API field reaches an emission; elision keys contain everything that is emitted and NPU_OP/waits bypass elision; word layout of "
-    "cmd0/cmd1; alignment checks dominate emissions; exactly one stop, last. Does NOT decide truncation of run-time magnitudes or decoded==input per history.",
+    "cmd0/cmd1; alignment checks dominate emissions; exactly one stop, last; shared rules: waits follow the queue model and precede their operation (C04-d/e), the access set they "
+    "are computed from is complete (C04-b), scale registers get their own role's pair (C09-c), emitted SHRAM layout is derived like the selected one (C15-d). Does NOT decide truncation of run-time magnitudes or decoded==input per history.",
     "Trusted: ethos_u55_regs.py as hardware spec; the frozen TRM bit table of NPU_SET_KERNEL_STRIDE; name-based roles; asserts enabled.",
     "DESIGN.md section 4, C06",
 )
